@@ -411,3 +411,93 @@ def ob_d(ob):
             ob.inconclusive(sl.name)
         else:
             raise HarnessError("crosshair failed: %s" % r["raw"][-800:])
+
+
+def replay_num_atoms():
+    """public API: Molecule(...).num_atoms for the batch H2S / OH- (padded), under AM1-type and PM6 parsing"""
+    from seqm.Molecule import Molecule
+    from seqm.seqm_functions.constants import Constants
+    from .common import quiet
+
+    bad = False
+    sp = torch.tensor([[16, 1, 1], [8, 1, 0]])
+    xyz = torch.tensor([[[0.0, 0, 0], [1.3, 0.1, 0], [-0.3, 1.3, 0]], [[0.0, 0, 0], [0.96, 0, 0], [0.0, 0, 0]]])
+    for method in ("AM1", "PM6"):
+        try:
+            with quiet():
+                m = Molecule(Constants(), {"method": method, "scf_eps": 1e-6, "scf_converger": [1]}, xyz.clone(), sp, charges=torch.tensor([0, -1]))
+        except Exception as ex:  # noqa
+            print("replay num_atoms (%s): Molecule raised %s: %s" % (method, type(ex).__name__, str(ex)[:120]))
+            continue
+        got = [float(x) for x in m.num_atoms]
+        print("replay num_atoms (%s): %s, real atoms per row [3.0, 2.0]" % (method, got))
+        bad |= got != [3.0, 2.0]
+    return bad
+
+
+@obligation(PID, "e", title="the atom count behind the degrees of freedom (Molecule.num_atoms) is the number of non-padding atoms of each batch row, however the Parser files them (hydrogen / heavy / d-orbital 'super-heavy'), and padding atoms get zero inverse mass")
+def ob_e(ob):
+    import importlib
+
+    MM = importlib.import_module("seqm.Molecule")  # `import seqm.Molecule as MM` yields the class re-exported by the package
+    from seqm.seqm_functions.constants import Constants
+
+    ob.encodes(MM.Molecule.__init__)
+    ob.bound("padded batch [[S,H,H],[O,H,pad]]; the Parser's three per-molecule counts symbolic integers constrained only by their sum (every way of filing the atoms, incl. d-orbital elements counted as super-heavy under PM6); methods AM1 and PM6")
+    ob.assume("Parser and Pack_Parameters are recorders (their own bookkeeping is C05.a / C18.b)")
+    species = torch.tensor([[16, 1, 1], [8, 1, 0]])
+    xyz = torch.zeros(2, 3, 3, dtype=torch.float64)
+    real = [3, 2]
+    sh = [z3.Int("nSH_%d" % b) for b in range(2)]
+    hv = [z3.Int("nHv_%d" % b) for b in range(2)]
+    hy = [z3.Int("nHy_%d" % b) for b in range(2)]
+    assm = []
+    for b in range(2):
+        assm += [sh[b] >= 0, hv[b] >= 0, hy[b] >= 0, sh[b] + hv[b] + hy[b] == real[b]]
+    saved = (MM.Parser, MM.Pack_Parameters)
+
+    class _Parser:
+        def __init__(self, *a, **k):
+            pass
+
+        def __call__(self, mol, method, *a, **k):
+            Z = torch.tensor([16, 1, 1, 8, 1])
+            d = torch.zeros(1, dtype=torch.long)
+            return (2, 3, SymTensor(np.array(sh, dtype=object)), SymTensor(np.array(hv, dtype=object)), SymTensor(np.array(hy, dtype=object)), torch.tensor([4, 4]), Z, d, d, d, d, d, d, d, d, d, torch.zeros(1, 3), torch.zeros(1))
+
+    class _Pack:
+        def __init__(self, *a, **k):
+            pass
+
+        def to(self, *a, **k):
+            return self
+
+        def __call__(self, Z, learned_params=None):
+            t = torch.ones(5, dtype=torch.float64)
+            return ({k: t.clone() for k in ("beta_s", "beta_p", "beta_d", "zeta_s", "U_ss")}, None, None)
+
+    MM.Parser, MM.Pack_Parameters = _Parser, _Pack
+    try:
+        for method in ("AM1", "PM6"):
+            with symbolic_factories():
+                m = MM.Molecule(Constants(), {"method": method, "elements": [0, 1, 8, 16]}, xyz.clone(), species)
+            na = m.num_atoms
+            for b in range(2):
+                e = na.a.reshape(-1)[b] if isinstance(na, SymTensor) else S.rv(float(na.reshape(-1)[b]))
+                lab = "e:%s num_atoms of row %d" % (method, b)
+                v, mdl = smt.prove(e == real[b], assm, lab, "auto", 20)
+                if v == "sat":
+                    MM.Parser, MM.Pack_Parameters = saved  # the replay uses the unstubbed classes
+                    if replay_num_atoms():
+                        ob.violation("Molecule.num_atoms of batch row %d is derived from the Parser's heavy/hydrogen counts (%s): atoms filed as d-orbital 'super-heavy' under PM6 are not counted, so n_dof and every temperature are wrong for such molecules" % (b, z3.simplify(e)), {"module": "harness.C13", "func": "replay_num_atoms", "args": {}})
+                        return
+                    raise HarnessError("num_atoms counterexample did not reproduce (%s)" % lab)
+                ob.verdict(v, lab)
+            mi = m.mass_inverse
+            mi = mi.a if isinstance(mi, SymTensor) else S.to_obj(mi)
+            v, mdl = smt.prove(z3.And(mi[1, 2, 0] == 0, mi[0, 0, 0] > 0, mi[1, 1, 0] > 0), assm, "e:%s inverse masses" % method, "auto", 20)
+            ob.verdict(v, "e:%s padding atom has zero inverse mass, real atoms a positive one" % method)
+    finally:
+        MM.Parser, MM.Pack_Parameters = saved
+    x = z3.Int("x")
+    expect_refuted(ob, 3 - x == 3, [x >= 0, x <= 3], "twin: a count that leaves out x atoms is noticed", "auto")
